@@ -477,7 +477,9 @@ pub fn shard(class: Class, seed: u64, tier: &str, scale: f64, from: u64, to: u64
     let (_, _, maxp, sparse) = *budgets(tier, scale, sys.zones.len()).iter().find(|b| b.0 == class).unwrap();
     let mut sh = Shard05::default();
     let mut distinct: HashSet<u64> = HashSet::new();
+    let hb = crate::runner::Heartbeat::start(out, std::time::Duration::from_secs(60));
     for i in from..to {
+        hb.beat(&format!("case {} of class {}", i, class.name()), &i.to_le_bytes());
         let (case, mut rng) = match make_case(seed, i, class, &sys) {
             Some(c) => c,
             None => {
@@ -617,6 +619,26 @@ pub fn run(opts: &Opts, only: Option<Class>) -> i32 {
         let mut c_zones = 0;
         let mut c_mm = 0;
         for k in 0..procs {
+            if let Ok(h) = std::fs::read_to_string(dir.join(format!("{}.hang", k))) {
+                let v: Value = serde_json::from_str(&h).unwrap_or(Value::Null);
+                let what = v["what"].as_str().unwrap_or("?").to_string();
+                let idx = crate::plan::hexbytes::unhex(v["hex"].as_str().unwrap_or("")).map(|b| {
+                    let mut a = [0u8; 8];
+                    a.copy_from_slice(&b[..8]);
+                    u64::from_le_bytes(a)
+                }).unwrap_or(0);
+                if !seen.contains(&"hang".to_string()) {
+                    seen.push("hang".into());
+                    let case = make_case(opts.seed, idx, class, &sys).map(|c| c.0);
+                    findings.push(Finding {
+                        property: "C05".into(),
+                        signature: format!("C05/{}/hang", class.name()),
+                        detail: format!("no progress for 60 s in {}", what),
+                        replay: json!({"kind": "c05-case", "class": "hang", "t": 0, "wall": false, "case": case}),
+                    });
+                }
+                continue;
+            }
             let text = std::fs::read_to_string(dir.join(format!("{}.json", k))).expect("read shard");
             let r: Shard05 = serde_json::from_str(&text).expect("parse shard");
             crate::runner::read_hashes(&dir.join(format!("{}.ilv", k)), &mut distinct);
